@@ -18,6 +18,8 @@ pub fn def() -> PropDef {
         needed_probes: &["c17_value_checked", "c17_second_join", "c17_failed_join", "c17_detached_checked", "c17_join_raced"],
         quick_runs: 30_000,
         thorough_runs: 2_000_000,
+        block: 1,
+        flavours: &["tokio"],
     }
 }
 
